@@ -30,7 +30,7 @@ ASSUMPTIONS = [
     'completeness is only demanded for names imported directly from the defining module and for paths through a module alias',
 ]
 FLOOR = {'quick': 150, 'thorough': 2000}
-SPACE = {'quick': '34 statement templates x 9 consumer scopes (singles)', 'thorough': 'all ordered pairs of statements x 9 consumer scopes'}
+SPACE = {'quick': '51 statement templates x 9 consumer scopes (singles)', 'thorough': 'all ordered pairs of statements x 9 consumer scopes'}
 JOB_TIMEOUT = 1500
 
 
@@ -44,6 +44,8 @@ def skeleton(tag: str) -> Tuple[str, str, Dict[str, str]]:
                        'class Left0(Base0):\n    "ID:Left0"\nclass Right0(Base0):\n    "ID:Right0"\n    def render(self): "ID:Right0.render"\n'
                        'class Widget0(Left0, Right0):\n    "ID:Widget0"\nclass Page0(Widget0):\n    "ID:Page0"\n'),
         f'{pa}/emp.py': f'"ID:{pa}.emp"\n__all__ = []\nfrom . import c as mb\nclass He:\n    "ID:He"\ndef fe(): "ID:fe"\n',
+        f'{pa}/und.py': (f'"ID:{pa}.und"\n__all__ = ["Pub", "_make", "_Eng"]\nclass Pub:\n    "ID:Pub"\ndef _make(): "ID:_make"\n'
+                         'class _Eng:\n    "ID:_Eng"\n    def start(self): "ID:_Eng.start"\ndef hidden(): "ID:hidden"\n'),
         f'{pa}/s/__init__.py': f'"ID:{pa}.s"\nclass Ks:\n    "ID:Ks"\n',
         f'{pa}/s/d.py': f'"ID:{pa}.s.d"\nclass Kd:\n    "ID:Kd"\ndef fd(): "ID:fd"\n',
         f'{pa}/s/u.py': f'"ID:{pa}.s.u"\n',
@@ -65,6 +67,10 @@ def statements(pa: str, qa: str) -> List[str]:
         f'from {qa}.e import Ke', f'import {qa}.e, {pa}.c',
         f'from {pa}.b import Kb\nZ = Kb', f'import {pa}.b\nmm = {pa}.b', f'import {pa}.b\nZ2 = {pa}.b.Kb', f'import {pa}.c as mc0\nZ3 = mc0.Kc\nmc1 = mc0',
         f'from {pa} import b as b0\nZ4 = b0.Kb.Nb',
+        # names the defining module exports itself (no move happens: the consumer just binds them), underscore names listed in __all__
+        f'from {pa}.b import Kb, fb\n__all__ = ["Kb", "fb"]', f'from {pa}.b import *\n__all__ = ["Kb"]', f'from {pa}.b import Kb as KbAlias\n__all__ = ["KbAlias"]',
+        f'from {pa}.und import *', f'from {pa}.und import *\n__all__ = ["Pub", "_make"]', f'from {pa}.und import *\nclass Motor(_Eng):\n    "ID:Motor"', f'import {pa}.und as um0',
+        f'from {pa}.und import _make, hidden', f'from {pa}.und import _Eng as E0, Pub',
         f'from {pa}.emp import *', f'from {pa}.c import Widget0, Page0 as P0', f'import {pa}.c as dm', f'from {pa}.c import Widget0\nclass Mine(Widget0):\n    "ID:Mine"',
     ]
 
@@ -185,6 +191,19 @@ def run_case(tag: str, scope_idx: int, stmt_idx: Sequence[int], res: Dict[str, A
                         for al in node.names:
                             if al.name != '*':
                                 direct_bindings.add((al.asname or al.name, base, al.name))
+            # a star import from a module that defines __all__ binds exactly those names: the ones defined in that module are direct imports too
+            for st in sts:
+                for node in _ast.walk(_ast.parse(st)):
+                    if isinstance(node, _ast.ImportFrom) and any(al.name == '*' for al in node.names):
+                        base = node.module or ''
+                        if node.level:
+                            parts = pkg.split('.')
+                            parts = parts[:len(parts) - (node.level - 1)]
+                            base = '.'.join(parts + ([node.module] if node.module else []))
+                        pym = sys.modules.get(base)
+                        if pym is not None and hasattr(pym, '__all__'):
+                            for nm in pym.__all__:
+                                direct_bindings.add((nm, base, nm))
             # each name bound once per scope
             targets: List[str] = []
             for st in sts:
